@@ -29,13 +29,22 @@ func init() {
 			"a clean batch is evidence, not proof: histories and index/weight values are sampled",
 		},
 	})
+	c05gen, c05exec, c05nt := twoWorlds(GenFleet(&fleetProfile{prop: "C05", stores: []string{refmodel.CLow, refmodel.CHigh, refmodel.CLow, refmodel.CHigh, refmodel.Dense}, roles: []string{"sketch"}, minNodes: 1, maxNodes: 3, shareMap: true,
+		weights: []string{"unit"}, valueSigns: []string{"pos", "neg", "mixed", "zeros"},
+		ops:   map[string]int{"add": 40, "burst": 15, "merge": 8, "copy": 2, "clear": 3, "send": 5, "query": 25},
+		forms: []string{"bin", "pb"}, modes: []string{"merge", "fresh"}, queryEvery: 25, maxOps: 150}), GenStoreWorld("C05"))
 	engine.Register(&engine.Prop{
-		ID: "C05", Level: "exploration", World: "store",
-		QuickRuns: 20000, ThoroughRuns: 1500000,
-		Generate:   GenStoreWorld("C05"),
-		Execute:    ExecStoreWorld,
-		NonTrivial: nonTrivialStore,
-		Rule: "seeded store-bench simulations with at least one collapsing store (bin limits 1..2048) and partners of any kind; " +
+		ID: "C05", Level: "exploration", World: "store+fleet",
+		QuickRuns: 24000, ThoroughRuns: 1500000,
+		Generate: func(r *engine.PRNG, run int, tier string) *engine.Plan { // two thirds store bench, one third sketch pipeline
+			if run%3 != 0 {
+				return c05gen(r, 2, tier)
+			}
+			return c05gen(r, 0, tier)
+		},
+		Execute:    c05exec,
+		NonTrivial: c05nt,
+		Rule: "two thirds seeded store-bench simulations with at least one collapsing store (bin limits 1..2048) and partners of any kind, one third sketch pipelines on collapsing stores with quantile queries (accuracy of every quantile whose order statistics sit in retained bins); " +
 			"distinct = distinct schedule signature; non-trivial = at least 3 mutations and at least one merge, delivery, clear, copy or reweight",
 		Real: realStoreComponents, Stub: stubStoreComponents,
 		Assumptions: []string{
